@@ -250,6 +250,7 @@ def check(case):
     uses_sparsity = (case['opts'].get('do_coloring', True) and not case['opts'].get('has_diag_partials')
                      and not case.get('manual')) or bool(case.get('manual_coloring'))
     judge_second = True
+    weak_masks = {}     # (output, input) -> entries the sparsity pass cannot tell from structural zeros
     # ExecComp's own coloring detects the sparsity with exact complex steps; a manually declared coloring goes through the
     # framework's approximation code, whose sparsity pass uses forward finite differences (noise ~1e-10 relative)
     thresh = 1e-6 if case.get('manual_coloring') else 1e-22
@@ -265,10 +266,34 @@ def check(case):
                 envp[n] = v
         Jp = {o['name']: X.jac(o['ast'], envp, wrt)[1] for o in case['outs']}
         gmax = max([float(np.max(np.abs(J[n]), initial=0.0)) for J in Jp.values() for n in wrt] + [0.0])
+        # ExecComp samples the sparsity with complex steps of the NumPy functions themselves; some of them lose tiny
+        # VALUES in complex arithmetic (np.log1p(1e-18+0j) == 0j), so an entry that is 1e-18 in exact arithmetic can be
+        # sampled as exactly 0.  The emulation therefore also complex-steps the NumPy evaluation at the perturbed point.
+        Jc = {}
+        try:
+            for o in case['outs']:
+                Jc[o['name']] = {}
+                osize = int(np.prod(o['shape'])) if o['shape'] else 1
+                for n in wrt:
+                    v = np.asarray(envp[n], dtype=float)
+                    cols = []
+                    for e in range(v.size):
+                        envc = {k: np.asarray(val, dtype=complex) for k, val in envp.items()}
+                        flat = envc[n].reshape(-1).copy()
+                        flat[e] += 1e-40j
+                        envc[n] = flat.reshape(v.shape)
+                        val = np.asarray(X.ev(o['ast'], envc))
+                        cols.append(np.broadcast_to(np.imag(val) / 1e-40, o['shape']).reshape(osize))
+                    Jc[o['name']][n] = np.array(cols).T.reshape(osize, v.size)
+        except Exception:
+            Jc = None
         for o in case['outs']:
             J1 = refs[1][o['name']][1]
             for n in wrt:
                 weak = np.abs(Jp[o['name']][n]) <= thresh * gmax
+                if Jc is not None and Jc[o['name']][n].shape == np.shape(J1[n]):
+                    weak = weak | (np.abs(Jc[o['name']][n]) <= thresh * gmax)
+                weak_masks[o['name'], n] = weak
                 if np.any(weak & (np.abs(J1[n]) > 0.0)):
                     judge_second = False
         if not judge_second:
@@ -289,7 +314,7 @@ def check(case):
                 tot = p.compute_totals(of=['c.' + o['name'] for o in case['outs']], wrt=['iv.' + n for n in wrt])
                 if p.model.c._coloring_info.coloring is not None:
                     colored = True
-                _judge(case, res, pre, mode, point, refs[point], outs, tot, ins, partials=(point == 0 or judge_second))
+                _judge(case, res, pre, mode, point, refs[point], outs, tot, ins, partials=(point == 0 or judge_second), weak=weak_masks)
         except Exception as e:
             sig = core.repo_frame_signature(e, 'execcomp')
             if sig is None:
@@ -312,7 +337,7 @@ def check(case):
     return res
 
 
-def _judge(case, res, pre, mode, point, ref, outs, tot, ins, partials=True):
+def _judge(case, res, pre, mode, point, ref, outs, tot, ins, partials=True, weak=None):
     for o in case['outs']:
         name = o['name']
         val, J, Trow, M = ref[name]
@@ -336,6 +361,10 @@ def _judge(case, res, pre, mode, point, ref, outs, tot, ins, partials=True):
                 continue
             tol = 1e-9 * (np.abs(r) + Trow[:, None] * abs(i.get('factor', 1.0))) + 1e-15
             bad = ~(np.abs(g - r) <= tol)
+            wk = (weak or {}).get((name, i['name']))
+            if wk is not None and np.shape(wk) == g.shape:
+                # an entry below the detection threshold of the sparsity pass may be reported as a structural zero
+                bad = bad & ~(wk & (g == 0.0))
             if np.any(bad):
                 a, b = np.argwhere(bad)[0]
                 _verify_oracle(case, o, i, point, J)
